@@ -215,6 +215,9 @@ def generate(req):
         c.execute("create table t_wr3(x INTEGER, y INTEGER, z TEXT, w, PRIMARY KEY(z, x, y)) WITHOUT ROWID")
         c.execute("create index ix_wr3_wy on t_wr3(w, y)")
         c.execute("create index ix_wr3_znc on t_wr3(z COLLATE NOCASE)")
+        # a key column named again with its own (default) collation spelled out: SQLite does not add it a second time
+        c.execute("create index ix_wr3_wzb on t_wr3(w, z COLLATE BINARY)")
+        c.execute("create index ix_wr3_yb on t_wr3(y COLLATE binary DESC, w)")
         c.executemany("insert or ignore into t_wr3 values(?,?,?,?)",
                       [(r.randint(0, 5), r.randint(0, 5), r.choice(["p", "q", "P", "r "]), g.any_value()) for i in range(m)])
 
